@@ -391,9 +391,35 @@ class Explorer:
         has_default = any(t == "label" and s.get("k") == "DefaultStmt" for t, s in flat)
         res = self._res()
         active = set()
+        pure_subject = cir.is_pure(cond)
+        all_labels = [cir.kids(st)[0] for t, st in flat if t == "label" and st.get("k") == "CaseStmt" and cir.kids(st)]
+
+        def eq(lab):
+            return {"k": "BinaryOperator", "op": "==", "line": lab.get("line"), "t": "int", "i": [cond, lab]}
+
+        def entering(label_stmt):
+            """states that jump to this label: refined by subject == label (case) or by subject != every label (default);
+            the assumption is kept only for the rule's branch callback, not as a path predicate (fallthrough mixes labels)"""
+            if not pure_subject:
+                return set(S)
+            out = set()
+            for cfg in S:
+                before = {e[0] for e in cfg[1]}
+                if label_stmt.get("k") == "CaseStmt" and cir.kids(label_stmt):
+                    T, _F = self.cond(eq(cir.kids(label_stmt)[0]), {cfg})
+                    cur = T
+                else:
+                    cur = {cfg}
+                    for lab in all_labels:
+                        _T, cur = self.cond(eq(lab), cur)
+                        if not cur:
+                            break
+                for st, env in cur:
+                    out.add((st, frozenset(e for e in env if e[0] in before)))
+            return out
         for t, st in flat:
             if t == "label":
-                active |= S
+                active |= entering(st)
             else:
                 if not active:
                     continue
@@ -403,7 +429,7 @@ class Explorer:
                 active = self._merge(r["next"])
         res["next"] |= active
         if not has_default:
-            res["next"] |= S
+            res["next"] |= entering({"k": "DefaultStmt"})
         res["next"] = self._merge(res["next"])
         self._check(res["next"])
         return res
